@@ -8,6 +8,7 @@ From Octo Require Export ExprTypes.
 (* error / panic enums of this engine *)
 Definition E_ASSERT : Z := 1.        (* TypeAssertion: "invalid type" *)
 Definition E_FUNCTION : Z := 2.      (* the function body returned an error *)
+Definition E_ABSTRACT : Z := 98.     (* an abstractly modelled body returned a value outside its declared result kinds *)
 Definition E_NOT_MODELLED : Z := 99. (* the body of this descriptor has no model: evaluation is not claimed *)
 Definition P_VAR : Z := 1.           (* variable level/index outside the variable context *)
 Definition P_ARGS : Z := 2.          (* values[i] / argValues[index] out of range *)
@@ -30,6 +31,10 @@ Inductive body :=
 | BAddDur | BSubDur | BNegDur | BMulDurInt | BMulIntDur | BDivDurInt
 | BConcat | BLenStr
 | BIntOfInt | BIntOfBool | BIntOfDur | BIntOfStr | BFloatOfFloat
+(* a body modelled only by the kinds of value it may return ("returns some Float"): the value itself comes from
+   [f], an oracle — in the differential run, the results the real body returned on this very case; in the
+   theorems, ANY function.  The wrapper in apply_body enforces the kinds, so nothing is assumed about f. *)
+| BAbstract (ks : list Z) (nargs : nat) (f : list value -> outcome value)   (* nargs: how many arguments the real body reads *)
 | BUnmodelled.
 
 Definition arg1 (vs : list value) (k : value -> outcome value) : outcome value :=
@@ -89,6 +94,13 @@ Definition apply_body (b : body) (vs : list value) : outcome value :=
   | BIntOfDur => arg1 vs (fun x => Ok (VInt (vdur x)))
   | BIntOfStr => arg1 vs (fun x => match parse_int (vstr x) with Some n => Ok (VInt n) | None => Ok VNull end)
   | BFloatOfFloat => arg1 vs (fun x => Ok x)
+  | BAbstract ks nargs f =>
+      if Nat.ltb (length vs) nargs then Panic P_ARGS else
+      match f vs with
+                      | Ok v => if kmem (tid v) ks then Ok v else Err E_ABSTRACT
+                      | Err e => Err e
+                      | Panic p => Panic p
+                      end
   | BUnmodelled => Err E_NOT_MODELLED
   end.
 
@@ -98,9 +110,17 @@ Definition args_are (d : fdesc) (ts : list sty) : bool :=
   tfkind_eqb (fd_typefn d) TFNone && list_eqb sty_eqb (fd_args d) ts.
 Definition name_is (d : fdesc) (s : string) : bool := String.eqb (fd_name d) s.
 
+(* the behaviour of the abstractly modelled bodies: descriptor name, position, argument values -> result *)
+Definition oracle : Type := string -> Z -> list value -> outcome value.
+Definition no_oracle : oracle := fun _ _ _ => Err E_NOT_MODELLED.
+
 Local Open Scope string_scope.
-Definition body_of (d : fdesc) : body :=
+Definition body_of (orc : oracle) (d : fdesc) : body :=
   let n := name_is d in
+  let ab := fun ks => BAbstract ks (length (fd_args d)) (orc (fd_name d) (fd_idx d)) in
+  let abn := fun ks n => BAbstract ks n (orc (fd_name d) (fd_idx d)) in
+  let fl := prim K_FLOAT in let tm := prim K_TIME in
+  let ns := tfkind_eqb (fd_typefn d) TFNoScalar in
   let tf := tfkind_eqb (fd_typefn d) TFEq in
   let i := prim K_INT in let du := prim K_DUR in let s := prim K_STR in
   if n "<" && tf then BCmp OLt
@@ -131,6 +151,40 @@ Definition body_of (d : fdesc) : body :=
   else if n "int" && args_are d [du] then BIntOfDur
   else if n "int" && args_are d [s] then BIntOfStr
   else if n "float" && args_are d [prim K_FLOAT] then BFloatOfFloat
+  (* abstract bodies: result kinds only *)
+  else if n "+" && args_are d [fl; fl] then ab [K_FLOAT]
+  else if n "-" && args_are d [fl; fl] then ab [K_FLOAT]
+  else if n "-" && args_are d [fl] then ab [K_FLOAT]
+  else if n "*" && args_are d [fl; fl] then ab [K_FLOAT]
+  else if n "/" && args_are d [fl; fl] then ab [K_FLOAT]
+  else if n "/" && args_are d [du; du] then ab [K_FLOAT]
+  else if n "+" && args_are d [tm; du] then ab [K_TIME]
+  else if n "+" && args_are d [du; tm] then ab [K_TIME]
+  else if n "-" && args_are d [tm; du] then ab [K_TIME]
+  else if n "*" && args_are d [s; i] then ab [K_STR]
+  else if n "*" && args_are d [i; s] then ab [K_STR]
+  else if n "abs" && args_are d [fl] then ab [K_FLOAT]
+  else if (n "sqrt" || n "ceil" || n "floor" || n "log" || n "log2" || n "log10") && args_are d [fl] then ab [K_FLOAT]
+  else if n "pow" && args_are d [fl; fl] then ab [K_FLOAT]
+  else if n "float" && args_are d [i] then ab [K_FLOAT]
+  else if n "float" && args_are d [du] then ab [K_FLOAT]
+  else if n "float" && args_are d [s] then ab [K_NULL; K_FLOAT]
+  else if n "int" && args_are d [fl] then ab [K_INT]
+  else if (n "like" || n "~" || n "~*") && args_are d [s; s] then ab [K_BOOL]
+  else if (n "upper" || n "lower" || n "reverse") && args_are d [s] then ab [K_STR]
+  else if n "replace" && args_are d [s; s; s] then ab [K_STR]
+  else if n "substr" && args_are d [s; i] then ab [K_STR]
+  else if n "substr" && args_are d [s; i; i] then ab [K_STR]
+  else if n "position" && args_are d [s; s] then ab [K_NULL; K_INT]
+  else if n "parse_time" && args_are d [s; s] then ab [K_NULL; K_TIME]
+  else if n "string" && args_are d [STAny] then ab [K_STR]
+  else if n "now" && args_are d [] then ab [K_TIME]
+  else if n "time_from_unix" && args_are d [i] then ab [K_TIME]
+  else if n "time_from_unix" && args_are d [fl] then ab [K_TIME]
+  else if n "time_to_unix" && args_are d [tm] then ab [K_INT]
+  else if n "panic" && args_are d [STAny] then ab []
+  else if (n "in" || n "not in") && ns then abn [K_BOOL] 2%nat
+  else if n "len" && ns then abn [K_INT] 1%nat
   else BUnmodelled.
 Local Close Scope string_scope.
 
@@ -143,11 +197,22 @@ Definition body_result_kinds (b : body) : option (list Z) :=
   | BConcat => Some [K_STR]
   | BIntOfStr => Some [K_NULL; K_INT]
   | BIntOfInt | BFloatOfFloat => None
+  | BAbstract ks _ _ => Some ks
   | BUnmodelled => Some []
   end.
 
+(* how many arguments a body reads (values[0], values[1]); with fewer it panics (index out of range) *)
+Definition body_min_args (b : body) : nat :=
+  match b with
+  | BCmp _ | BEq | BNe | BAddInt | BSubInt | BMulInt | BDivInt | BAddDur | BSubDur | BMulDurInt | BMulIntDur
+  | BDivDurInt | BConcat => 2
+  | BUnmodelled => 0
+  | BAbstract _ n _ => n
+  | _ => 1
+  end.
+
 Definition body_modelled (b : body) : bool := match b with BUnmodelled => false | _ => true end.
-Definition desc_modelled (d : fdesc) : bool := body_modelled (body_of d).
+Definition desc_modelled (d : fdesc) : bool := body_modelled (body_of no_oracle d).
 
 (* ---- execution expressions ---- *)
 Inductive eexpr : Type :=
@@ -275,21 +340,21 @@ Definition K_ANY : Z := 11.
 Definition expected_ids (target : sty) : list Z :=
   match target with STAny => [K_ANY] | STSet ks => ks end.
 
-Fixpoint materialize (e : pexpr) : eexpr :=
+Fixpoint materialize (orc : oracle) (e : pexpr) : eexpr :=
   match e with
   | PConst _ v => EConst v
   | PVar _ l i => EVar l i
-  | PCall _ d args => ECall (body_of d) (map materialize args) (null_check_indices d (map ptype args))
-  | PAnd _ args => EAnd (map materialize args)
-  | POr _ args => EOr (map materialize args)
-  | PCoalesce _ args => ECoalesce (map materialize args)
-  | PAssert _ target a => EAssert (expected_ids target) (materialize a)
-  | PCast _ id a => ECast id (materialize a)
+  | PCall _ d args => ECall (body_of orc d) (map (materialize orc) args) (null_check_indices d (map ptype args))
+  | PAnd _ args => EAnd (map (materialize orc) args)
+  | POr _ args => EOr (map (materialize orc) args)
+  | PCoalesce _ args => ECoalesce (map (materialize orc) args)
+  | PAssert _ target a => EAssert (expected_ids target) (materialize orc a)
+  | PCast _ id a => ECast id (materialize orc a)
   end.
 
-Definition peval (ctx : vctx) (e : pexpr) : outcome value := eval ctx (materialize e).
+Definition peval (orc : oracle) (ctx : vctx) (e : pexpr) : outcome value := eval ctx (materialize orc e).
 (* all arguments, left to right, stopping at the first failure (what FunctionCall.Evaluate does first) *)
-Definition pevals (ctx : vctx) (args : list pexpr) : outcome (list value) := evals (eval ctx) (map materialize args).
+Definition pevals (orc : oracle) (ctx : vctx) (args : list pexpr) : outcome (list value) := evals (eval ctx) (map (materialize orc) args).
 
 (* every call in the expression uses a descriptor whose body is modelled *)
 Fixpoint pmodelled (e : pexpr) : bool :=
@@ -346,3 +411,13 @@ Definition outcome_eqb (a b : outcome value) : bool :=
   | Panic _, Panic _ => true
   | _, _ => false
   end.
+
+(* ---- the oracle of a differential case: the calls of abstractly modelled bodies the implementation made while
+   evaluating this case (descriptor name, position, argument values, what the body returned) ---- *)
+Definition call_rec : Type := (string * Z * list value * outcome value)%type.
+Definition orc_of (calls : list call_rec) : oracle :=
+  fun n i vs =>
+    match find (fun c => let '(cn, ci, cvs, _) := c in String.eqb n cn && (i =? ci) && list_eqb value_eqb vs cvs) calls with
+    | Some (_, _, _, r) => r
+    | None => Err E_NOT_MODELLED
+    end.
